@@ -67,6 +67,8 @@ def ty_of(q):
         return "blist"
     if q0.endswith("Socket::Method"):
         return "int"
+    if q0.endswith("QObjectHandlerPrivate::Method"):
+        return "reg"
     if "QByteArray" in q0 or "IByteArray" in q0 or q0.startswith("char") or "char *" in q0 or "char[" in q0:
         return "bytes"
     if "QJsonDocument" in q0:
@@ -79,7 +81,7 @@ def ty_of(q):
 
 
 LEAN_TY = {"bool": "Bool", "int": "Int", "bytes": "Bytes", "obytes": "Option Bytes", "hmap": "HeaderMap", "json": "Bytes",
-           "rstate": "RState", "wstate": "WState", "blist": "List Bytes"}
+           "rstate": "RState", "wstate": "WState", "blist": "List Bytes", "reg": "SlotHandler.Reg", "qstr": "QStr"}
 
 # C++ member of SocketPrivate -> (field of Qhttp.Sock, type)
 FIELDS = {
@@ -996,7 +998,7 @@ class Fn:
                                 env[nm] = (("find", cm, ck), "iter")
                                 continue
                     raise Untranslatable("iterator %s that is not begin()/end()/find() of a header map" % nm)
-                if t not in ("int", "bool", "bytes", "blist", "hmap"):
+                if t not in ("int", "bool", "bytes", "blist", "hmap", "reg", "qstr"):
                     raise Untranslatable("local %s of type %s" % (nm, qt(v)))
                 if not init or (strip(init[0]).get("kind") in ("CXXConstructExpr", "CXXTemporaryObjectExpr") and not [c for c in kids(strip(init[0])) if c.get("kind") != "CXXDefaultArgExpr"]):
                     if t == "int" and not init and (self.free or self.state_ty != "Sock"):
@@ -2187,6 +2189,159 @@ def translate_auth(repo, exp):
         QSTR_AS_BYTES[0] = False
 
 
+SLOT_WANTED = ["QObjectHandler::process"]
+
+
+class SlotFn(Fn):
+    """`QObjectHandler::process`: which of 404 / invoke now / invoke at end-of-body happens, over the registry and the two
+    questions asked of the socket (`Qhttp/Model/SxPrim.lean`)."""
+    def __init__(self, ctx, key):
+        Fn.__init__(self, ctx, key)
+        self.state_ty = "List Sx.Act"
+        self.env_sig = "(se : Sx.Env) "
+        self.uses_env = True
+        self.params = [p for p in self.params if not p[2].startswith("?")]          # Socket *socket
+
+    def member(self, n):
+        n = strip(n)
+        if n.get("kind") == "MemberExpr" and kids(n):
+            base = strip(kids(n)[0])
+            if base.get("kind") == "MemberExpr" and base.get("name") == "d" and kids(base) and strip(kids(base)[0]).get("kind") == "CXXThisExpr":
+                return n["name"]
+        return None
+
+    def obj_path(self, n):
+        if self.member(n) == "map":
+            return "map"
+        n0 = strip(n)
+        if n0.get("kind") == "MemberExpr" and n0.get("name") == "d" and kids(n0) and strip(kids(n0)[0]).get("kind") == "CXXThisExpr":
+            return "d"
+        if n0.get("kind") == "DeclRefExpr" and n0.get("referencedDecl", {}).get("name") == "socket":
+            return "socket"
+        if n0.get("kind") == "DeclRefExpr" and n0.get("referencedDecl", {}).get("kind") in ("VarDecl", "ParmVarDecl"):
+            return ("local", n0["referencedDecl"]["name"])
+        return None
+
+    def effectful(self, n):
+        n0 = strip(n)
+        if n0.get("kind") == "CXXMemberCallExpr":
+            callee = strip(kids(n0)[0])
+            if callee.get("kind") == "MemberExpr" and kids(callee):
+                o = self.obj_path(kids(callee)[0])
+                if (o == "socket" and callee.get("name") not in ("bytesAvailable", "contentLength")) or (o == "d" and callee.get("name") == "invokeSlot"):
+                    return True
+        if n0.get("kind") == "CallExpr" and strip(kids(n0)[0]).get("referencedDecl", {}).get("name") == "connect":
+            return True
+        return any(self.effectful(c) for c in kids(n0) if c.get("kind") != "LambdaExpr")
+
+    def ex(self, n, env):
+        n0 = strip(n)
+        if n0.get("kind") == "MemberExpr" and kids(n0) and n0.get("name") in ("readAll",):
+            p, c, t = self.ex(kids(n0)[0], env)
+            if t == "reg":
+                return p, "%s.readAll" % c, "bool"
+        return Fn.ex(self, n, env)
+
+    def invoke_arg(self, n, env):
+        """the Method handed to invokeSlot: a local of type Method (copied)"""
+        p, c, t = self.ex(n, env)
+        if t != "reg":
+            raise Untranslatable("invokeSlot with something else than a Method")
+        return p, c
+
+    def call_member(self, n, env, want_value):
+        ks = kids(n)
+        callee = strip(ks[0])
+        if callee.get("kind") == "MemberExpr" and kids(callee):
+            obj = self.obj_path(kids(callee)[0])
+            nm = callee["name"]
+            real = [x for x in ks[1:] if x.get("kind") != "CXXDefaultArgExpr"]
+            if obj == "map":
+                pre, a = self.args(real, env)
+                if nm == "contains" and [t for _, t in a] == ["qstr"]:
+                    return pre, "(Sx.mapContains se.regs %s)" % a[0][0], "bool"
+                if nm == "value" and [t for _, t in a] == ["qstr"]:
+                    return pre, "(Sx.mapValue se.regs %s)" % a[0][0], "reg"
+                raise Untranslatable("map.%s" % nm)
+            if obj == "socket":
+                pre, a = self.args(real, env)
+                if nm == "writeError" and [t for _, t in a] == ["int"]:
+                    return pre + ["let s := Sx.err s %s" % a[0][0]], "()", "void"
+                if nm == "bytesAvailable" and not a:
+                    return [], "(Sx.bytesAvailable se)", "int"
+                if nm == "contentLength" and not a:
+                    return [], "(Sx.contentLength se)", "int"
+                raise Untranslatable("socket->%s in the slot handler" % nm)
+            if obj == "d" and nm == "invokeSlot" and len(real) == 2 and self.obj_path(real[0]) == "socket":
+                p, c = self.invoke_arg(real[1], env)
+                return p + ["let s := Sx.invoke s %s" % c], "()", "void"
+        return Fn.call_member(self, n, env, want_value)
+
+    def call_free(self, n, env, want_value):
+        ks = kids(n)
+        fn = strip(ks[0])
+        nm = fn.get("referencedDecl", {}).get("name")
+        real = [x for x in ks[1:] if x.get("kind") != "CXXDefaultArgExpr"]
+        if nm == "connect" and len(real) == 3 and self.obj_path(real[0]) == "socket":
+            sig = strip(real[1])
+            signame = strip(kids(sig)[0]).get("referencedDecl", {}).get("name") if sig.get("kind") == "UnaryOperator" and kids(sig) else None
+            lam = strip(real[2])
+            if signame == "readChannelFinished" and lam.get("kind") == "LambdaExpr":
+                body = [c for c in kids(lam) if c.get("kind") == "CompoundStmt"]
+                stmts = kids(body[-1]) if body else []
+                if len(stmts) == 1:
+                    c0 = strip(stmts[0])
+                    if c0.get("kind") == "CXXMemberCallExpr" and strip(kids(c0)[0]).get("name") == "invokeSlot":
+                        args = [x for x in kids(c0)[1:] if x.get("kind") != "CXXDefaultArgExpr"]
+                        if len(args) == 2 and strip(args[0]).get("referencedDecl", {}).get("name") == "socket":
+                            p, c = self.invoke_arg(args[1], env)
+                            return p + ["let s := Sx.defer s %s" % c], "()", "void"
+            raise Untranslatable("connect() other than readChannelFinished -> invokeSlot(socket, m)")
+        return Fn.call_free(self, n, env, want_value)
+
+
+def translate_slot(repo, exp):
+    docs = clang_ast(repo, "qobjecthandler.cpp", "QHttpEngine::QObjectHandler", exp)
+    decls = {}
+    by_id = {}
+    def index(n, cls=None):
+        if n.get("kind") == "CXXRecordDecl" and n.get("name"):
+            cls = n["name"]
+        if n.get("kind") == "CXXMethodDecl" and "id" in n and cls:
+            by_id[n["id"]] = cls
+        for ch in n.get("inner", []) or []:
+            index(ch, cls)
+    for d in docs:
+        index(d)
+    for d in docs:
+        if d.get("kind") == "CXXMethodDecl" and body_of(d) is not None:
+            cls = by_id.get(d.get("previousDecl"))
+            if cls:
+                decls[cls + "::" + d["name"]] = d
+    sdocs = clang_ast(repo, "qobjecthandler.cpp", "QHttpEngine::Socket", exp)
+    senums = enum_values(sdocs, "Socket")
+    ctx = Ctx(decls, senums, "")
+    ctx.fetch = lambda name: clang_ast(repo, "qobjecthandler.cpp", name, exp)
+    ctx.fn_class = SlotFn
+    done, failed = [], []
+    for key in SLOT_WANTED:
+        try:
+            ctx.need(key)
+        except Untranslatable as e:
+            failed.append("%s (%s)" % (key, e))
+    out = ["-- GENERATED on every run by tools/cxx2lean_qt.py from src/src/qobjecthandler.cpp — do not edit.",
+           "import Qhttp.Model.SxPrim", "set_option linter.unusedVariables false", "", "namespace QhttpGen.Slot", "open Qhttp", ""]
+    for key in ctx.order:
+        out.append(ctx.code[key]); done.append(key)
+    helpers = [ctx.done[k]["name"] for k in ctx.order if k not in SLOT_WANTED]
+    out.append("end QhttpGen.Slot\n")
+    if helpers:
+        out.append("macro \"unfold_slot_helpers\" : tactic => `(tactic| try simp only [%s] at *)\n" % ", ".join("QhttpGen.Slot." + h for h in helpers))
+    else:
+        out.append("macro \"unfold_slot_helpers\" : tactic => `(tactic| skip)\n")
+    return "\n".join(out), done, failed
+
+
 PARSER_WANTED = ["Parser::split", "Parser::parseHeaderList", "Parser::parseHeaders", "Parser::parseRequestHeaders", "Parser::parseResponseHeaders"]
 
 # what a function that could not be translated is replaced by: the model's function in the translated signature
@@ -2301,6 +2456,11 @@ if __name__ == "__main__":
     import sys
     if len(sys.argv) > 2 and sys.argv[2] == "fs":
         text, done, failed = translate_fs(sys.argv[1], "/repo/_build/src")
+        print(text)
+        print("-- done:", done, "\n-- failed:", failed, file=sys.stderr)
+        sys.exit(0)
+    if len(sys.argv) > 2 and sys.argv[2] == "slot":
+        text, done, failed = translate_slot(sys.argv[1], "/repo/_build/src")
         print(text)
         print("-- done:", done, "\n-- failed:", failed, file=sys.stderr)
         sys.exit(0)
